@@ -52,12 +52,15 @@ ClsIn(cls, c) ==
     [] cls = "rs" -> RE2Space(c)
     [] cls = "rS" -> ~RE2Space(c)
 
-\* under ignore-case a class contains c iff it contains c or one of its simple case images
+\* under ignore-case a set of ranges contains c iff it contains a member of c's simple case-fold orbit
+\* (Unicode!FoldSet; CharClass.tla states the same rule for whole class expressions)
 ChrOK(n, c) ==
-  LET hit == IF n.ic
-             THEN InRanges(c, n.rs) \/ InRanges(ToLower(c), n.rs) \/ InRanges(ToUpper(c), n.rs)
-             ELSE InRanges(c, n.rs)
+  LET hit == IF n.ic THEN \E e \in FoldSet(c) : InRanges(e, n.rs) ELSE InRanges(c, n.rs)
   IN  (hit \/ ClsIn(n.cls, c)) # n.neg
+
+\* a class with a subtraction [base-[sub]] is a chr node whose only kid is the subtracted class (itself a chr node)
+RECURSIVE ChrIn(_,_,_)
+ChrIn(p, n, c) == ChrOK(n, c) /\ (n.kids = <<>> \/ ~ChrIn(p, p[n.kids[1]], c))
 
 CharEq(a, b, ic) == IF ic THEN ToLower(a) = ToLower(b) ELSE a = b
 
@@ -113,8 +116,8 @@ AttemptE(p, s, i0, org, rtl, ecma) ==
       IF f.t = "n" THEN
         LET n == p[f.id] IN
         CASE n.op = "chr" ->
-               IF ~d THEN (IF i < Len(s) /\ ChrOK(n, s[i+1]) THEN Run(rest, i + 1, caps) ELSE Fail)
-               ELSE       (IF i > 0      /\ ChrOK(n, s[i])   THEN Run(rest, i - 1, caps) ELSE Fail)
+               IF ~d THEN (IF i < Len(s) /\ ChrIn(p, n, s[i+1]) THEN Run(rest, i + 1, caps) ELSE Fail)
+               ELSE       (IF i > 0      /\ ChrIn(p, n, s[i])   THEN Run(rest, i - 1, caps) ELSE Fail)
           [] n.op = "empty"   -> Run(rest, i, caps)
           [] n.op = "nothing" -> Fail
           [] IsAnchor(n.op)   -> IF AnchorOK(n.op, s, i, org) THEN Run(rest, i, caps) ELSE Fail
